@@ -41,6 +41,7 @@ type c12Scenario struct {
 	warm    bool
 	create  bool // every thread creates its own evaluator from src concurrently
 	bound   int
+	budgets []uint64 // create scenarios: creation number i is given WithMaxExpressions(budgets[i % len]); a creation that fails is an outcome, not an error of the harness
 }
 
 func c12Scenarios(thorough bool) []c12Scenario {
@@ -89,10 +90,14 @@ func c12Scenarios(thorough bool) []c12Scenario {
 		// one selector meeting DIFFERENT kinds in concurrent calls (anything remembered about the literal per node is contended)
 		{name: "numeric literal over mixed kinds 2x2", src: "n == 7 or `7` in m", threads: 2, ops: 2, data: kinds, bound: -1},
 		{name: "numeric literal over mixed kinds 3x1", src: "n != 7 and m contains `7`", threads: 3, ops: 1, data: kinds, bound: -1},
+		// quantifier bindings next to an unknown value (an option list with spare capacity that every call extends)
+		{name: "quantifier with unknown value 2x2", src: "any l as x { x == `a` or zz == 1 }", opts: Cfg{Tag: "bexpr", Unknown: one}, threads: 2, ops: 2, data: mixed, bound: -1},
+		{name: "nested quantifier with unknown value and hook 3x1", src: "all l as i, x { (any l as y { y == `a` }) or zz == 2 }", opts: Cfg{Tag: "bexpr", Unknown: one, Hook: HookIdentity}, threads: 3, ops: 1, data: mixed, bound: 2},
 		{name: "absent field and index errors 2x2", src: "s.zz == 1 or l.9 == `a` or zz.q is empty", threads: 2, ops: 2, data: mixed, bound: -1},
 		{name: "matches 3x2 first use (bounded)", src: "s matches `a+`", threads: 3, ops: 2, data: mixed, bound: 2},
 		{name: "two caches 3x1 (bounded)", src: "s matches `a` or t matches `b`", threads: 3, ops: 1, data: mixed, bound: 2},
 	}
+	sc = append(sc, c12BudgetScenarios()...)
 	if thorough {
 		sc = append(sc,
 			c12Scenario{name: "matches 3x2 first use (bound 3)", src: "s matches `a+`", threads: 3, ops: 2, data: mixed, bound: 3},
@@ -115,7 +120,9 @@ var c12Unique int64
 // newInstance creates a fresh evaluator / filter. Every regular-expression literal is made textually
 // unique per instance (an alternative that never matches is appended) so that process-global state keyed
 // by the literal is cold for every instance, not only for the first one of the process.
-func (sc *c12Scenario) newInstance() (*bexpr.Evaluator, *bexpr.Filter, error) {
+func (sc *c12Scenario) newInstance() (*bexpr.Evaluator, *bexpr.Filter, error) { return sc.newInstanceFor(0) }
+
+func (sc *c12Scenario) newInstanceFor(i int) (*bexpr.Evaluator, *bexpr.Filter, error) {
 	n := atomic.AddInt64(&c12Unique, 1)
 	src := sc.src
 	if strings.Contains(src, "matches `") {
@@ -131,8 +138,21 @@ func (sc *c12Scenario) newInstance() (*bexpr.Evaluator, *bexpr.Filter, error) {
 		f, err := bexpr.CreateFilter(src)
 		return nil, f, err
 	}
-	ev, err := bexpr.CreateEvaluator(src, optsFor(sc.opts)...)
+	opts := optsFor(sc.opts)
+	if len(sc.budgets) > 0 {
+		opts = append(opts, bexpr.WithMaxExpressions(sc.budgets[i%len(sc.budgets)]))
+	}
+	ev, err := bexpr.CreateEvaluator(src, opts...)
 	return ev, nil, err
+}
+
+// c12DoNew: create instance number i and make one call on it; a failing creation is the call's outcome
+func (sc *c12Scenario) c12DoNew(i int, d interface{}) c12Call {
+	ev, flt, err := sc.newInstanceFor(i)
+	if err != nil || (ev == nil && flt == nil) {
+		return c12Call{vE, "creation failed"}
+	}
+	return c12Do(ev, flt, d)
 }
 
 func c12Do(ev *bexpr.Evaluator, flt *bexpr.Filter, d interface{}) c12Call {
@@ -150,8 +170,21 @@ func c12Do(ev *bexpr.Evaluator, flt *bexpr.Filter, d interface{}) c12Call {
 	return c12Call{cls3(o), o.String()}
 }
 
-func runC12(c *eng.Ctx) {
-	scs := c12Scenarios(c.Thorough())
+func runC12(c *eng.Ctx) { c12RunScenarios(c, c12Scenarios(c.Thorough())) }
+
+// c12BudgetScenarios: evaluators created CONCURRENTLY under different expression budgets (each creation must get its own budget:
+// the tiny one fails, the huge one succeeds, whatever the interleaving). Used by C12 and, as the concurrency part of the budget
+// property, by C11.
+func c12BudgetScenarios() []c12Scenario {
+	d := []interface{}{map[string]interface{}{"s": "aaa", "t": "b"}}
+	return []c12Scenario{
+		{name: "concurrent creation under different budgets 2x1", src: "s == `aaa` or t == `b`", create: true, threads: 2, ops: 1, data: d, bound: -1, budgets: []uint64{1, 1 << 40}},
+		{name: "concurrent creation under different budgets 3x1", src: "s == `aaa` and not (t == `x`)", create: true, threads: 3, ops: 1, data: d, bound: 2, budgets: []uint64{1 << 40, 1, 0}},
+		{name: "concurrent creation under different budgets 2x2", src: "t == `b`", create: true, threads: 2, ops: 2, data: d, bound: 2, budgets: []uint64{3, 1 << 40, 0, 5}},
+	}
+}
+
+func c12RunScenarios(c *eng.Ctx, scs []c12Scenario) {
 	limit := 150000
 	if c.Thorough() {
 		limit = 4000000
@@ -175,6 +208,10 @@ func runC12(c *eng.Ctx) {
 		want := make([]c12Call, sc.threads*sc.ops)
 		okSc := true
 		for i := range want {
+			if len(sc.budgets) > 0 {
+				want[i] = sc.c12DoNew(i, sc.data[i%len(sc.data)])
+				continue
+			}
 			ev, flt, err := sc.newInstance()
 			if err != nil {
 				c.Violate(eng.Violation{Kind: "harness-expression-rejected", Key: "create: " + sc.src, Detail: err.Error()})
@@ -205,12 +242,17 @@ func runC12(c *eng.Ctx) {
 				t := t
 				bs = append(bs, func() {
 					e, f := ev, flt
-					if sc.create {
+					if sc.create && len(sc.budgets) == 0 {
 						e, f, _ = sc.newInstance()
 					}
 					for k := 0; k < sc.ops; k++ {
 						i := t*sc.ops + k
-						got := c12Do(e, f, sc.data[i%len(sc.data)])
+						var got c12Call
+						if len(sc.budgets) > 0 {
+							got = sc.c12DoNew(i, sc.data[i%len(sc.data)])
+						} else {
+							got = c12Do(e, f, sc.data[i%len(sc.data)])
+						}
 						if got.class != want[i].class || (sc.filter && got.sig != want[i].sig) {
 							wrong = append(wrong, fmt.Sprintf("thread %d call %d on datum %d: got %s, sequentially %s", t, k, i%len(sc.data), got.sig, want[i].sig))
 						}
@@ -378,6 +420,10 @@ func RaceComplement(tier string) string {
 		n := sc.threads * sc.ops
 		want := make([]c12Call, n)
 		for i := range want {
+			if len(sc.budgets) > 0 {
+				want[i] = sc.c12DoNew(i, sc.data[i%len(sc.data)])
+				continue
+			}
 			ev, flt, err := sc.newInstance()
 			if err != nil {
 				continue
@@ -390,7 +436,7 @@ func RaceComplement(tier string) string {
 		}
 		for r := 0; r < rounds; r++ {
 			ev, flt, err := sc.newInstance()
-			if err != nil {
+			if err != nil && len(sc.budgets) == 0 {
 				break
 			}
 			if sc.warm {
@@ -405,13 +451,18 @@ func RaceComplement(tier string) string {
 				go func() {
 					<-start
 					e, f := ev, flt
-					if sc.create {
+					if sc.create && len(sc.budgets) == 0 {
 						e, f, _ = sc.newInstance()
 					}
 					msg := ""
 					for k := 0; k < sc.ops; k++ {
 						i := (t*sc.ops + k) % n
-						got := c12Do(e, f, sc.data[i%len(sc.data)])
+						var got c12Call
+						if len(sc.budgets) > 0 {
+							got = sc.c12DoNew(i, sc.data[i%len(sc.data)])
+						} else {
+							got = c12Do(e, f, sc.data[i%len(sc.data)])
+						}
 						if got.class != want[i].class || (sc.filter && got.sig != want[i].sig) {
 							msg = fmt.Sprintf("RESULT-MISMATCH scenario=%q: got %s, sequentially %s", sc.name, got.sig, want[i].sig)
 						}
